@@ -90,7 +90,7 @@ def solve_one(job):
             res.update(status='refuted', backend='z3-ematch(sat)')
             return res
         res['reason'] = why
-        r2, dt2, why2 = _check(text, True, min(timeout_ms, 10000))
+        r2, dt2, why2 = _check(text, True, min(timeout_ms, 5000))
         res['seconds'] += dt2
         if r2 == 'unsat':
             res.update(status='discharged', backend='z3-mbqi')
